@@ -673,6 +673,14 @@ func lifecycleHistories() []cacheHist {
 			{"rc0", "s", I, T, "rc1", "t", ahour, "t", "rc1", "t"},
 			{"rc0", "rc1", "s", I, "rc0", "t", "a300000000000", "t", "rc0"},
 			{"ru0", "rc0", "s", "s", I, T, "rc0", "rc1", "t", ahour, "t", "s", "rc1", "t", ahour, "t"},
+			// only the TTL configured (the interval is then derived from it), after a cleaner has already run with the defaults —
+			// set after the stop, and set while it runs and the cleaner restarted afterwards: the restarted cleaner sweeps at the
+			// derived interval
+			// (entries stored before the TTL call keep the default expiry, so nothing expires in real time; they are made to
+			// expire by shifting, and the restarted cleaner — 100 ms derived interval — must remove them within two ticks)
+			{"rc0", "rc1", "s", "T200000000", "rc0", "a300000000000", "t"},
+			{"rc0", "rc1", "T200000000", "s", "rc0", "a300000000000", "t"},
+			{"rc0", "s", "rc1", "s", "T200000000", "rc1", "rc0", "a300000000000", "t"},
 		} {
 			hs = append(hs, cacheHist{ops: ops, fast: true})
 		}
